@@ -44,6 +44,12 @@ type ReadPlan struct {
 	EOFWithData bool     `json:"eof_with_data,omitempty"`
 	Cut         *FaultAt `json:"cut,omitempty"`
 	Fail        *FaultAt `json:"fail,omitempty"`
+	// Native replaces the simulated reader by a standard-library one over the
+	// same bytes: "bytes" = *bytes.Reader (also an io.Seeker, io.ByteReader,
+	// io.WriterTo, io.ReaderAt with Len/Size), "bufio" = *bufio.Reader of a
+	// small size over one. Chunking is then the library type's own; a cut is
+	// the end of the slice. Ignored under the conc engine and with Fail.
+	Native string `json:"native,omitempty"`
 }
 
 // Yielder is the scheduler seam: every simulated I/O call first yields.
